@@ -179,3 +179,7 @@
   (or ((_ is VArr) a) ((_ is VMap) a) ((_ is VBytes) a) ((_ is VErr) a)))
 (define-fun spec_isarr ((a V)) Bool ((_ is VArr) a))
 (define-fun spec_ismap ((a V)) Bool ((_ is VMap) a))
+
+; rune decoding of strings (uninterpreted: the engine gives []rune(s) these lengths / elements)
+(define-fun spec_nrunes ((s Str)) (_ BitVec 64) (s_nrunes s))
+(define-fun spec_runeat ((s Str) (i (_ BitVec 64))) (_ BitVec 32) (s_runeat s i))
